@@ -198,7 +198,20 @@ def run(rep, pdb, tier):
     swaps = [n for n in walk(dec["body"]) if n.get("k") == "MethodCall" and callee_path(n) == "matrix::Matrix<T>::swap_elem"]
     negs = [e for e in effs if e.kind == "assign" and e.target == D and e.value == ("neg", D)]
     okx, det = len(swaps) == 1 and len(negs) == 1, "swaps=%d sign flips=%d" % (len(swaps), len(negs))
-    if okx:
+    rowswaps = [n for n in walk(dec["body"]) if n.get("k") == "MethodCall" and callee_path(n) == "matrix::Matrix<T>::swap_rows"]
+    if not swaps and len(rowswaps) == 1 and len(negs) == 1:
+        # the whole-row exchange of the compact copy (au has exactly mm columns): au.swap_rows(k, i)
+        s = rowswaps[0]
+        a = [ctx.term(x) for x in call_args(s)]
+        ifs_s = [x for x in ancestors(s) if x.get("k") == "If"]
+        ifs_n = [x for x in ancestors(negs[0].node) if x.get("k") == "If"]
+        ct = ctx.term(ifs_s[0]["cond"]) if ifs_s else None
+        cond_ok = ct is not None and ct[0] == "op" and ct[1] == "!=" and {ct[2], ct[3]} == {am.idx_var, k}
+        pair = a[0] == AU and {a[1], a[2]} == {k, am.idx_var}
+        okx = cond_ok and pair and ifs_s == ifs_n
+        det = "under `i != k`=%s whole rows {k,i} of au exchanged by swap_rows=%s sign flipped in the same context=%s index[k]=i+1 recorded unconditionally=%s" % (cond_ok, pair, ifs_s == ifs_n, okrec)
+        swaps = rowswaps
+    elif okx:
         s = swaps[0]
         sl = [a for a in ancestors(s) if a.get("k") == "For"]
         r = for_range(ctx, sl[0])
